@@ -256,6 +256,44 @@ def outcome_of(e, v):
     return _attempt_schema(e, v, UNBOUND_PROPERTY)
 
 
+def d6_multiple(v, m):
+    from . import draft6
+    return draft6.multiple_of(v, m)
+
+
+def vrejects(validator, v):
+    from statham.schema.exceptions import ValidationError
+    from statham.schema.elements.base import UNBOUND_PROPERTY
+    try:
+        validator(v, UNBOUND_PROPERTY)
+    except ValidationError:
+        return True
+    return False
+
+
+def validators_of(e):
+    return list(e.validators)
+
+
+def accepts_all(vs, v):
+    return not any(vrejects(x, v) for x in vs)
+
+
+def csem(e, v):
+    from statham.schema.exceptions import ValidationError
+    from statham.schema.elements.base import UNBOUND_PROPERTY
+    try:
+        e.construct(v, UNBOUND_PROPERTY)
+    except (ValidationError, TypeError):
+        return False
+    return True
+
+
+def cbuild(e, v):
+    from statham.schema.elements.base import UNBOUND_PROPERTY
+    return e.construct(v, UNBOUND_PROPERTY)
+
+
 def rbd(x):
     from statham.schema.validation import base
     if x is True:
@@ -280,4 +318,5 @@ def namespace():
             if isinstance(v, type):
                 ns.setdefault(k, v)
     ns["NP"] = constants.NotPassed()
+    ns["NoneType"] = type(None)
     return ns
